@@ -75,6 +75,7 @@ func runC12(c *Ctx) {
 	c.r126(pk)
 	c.r127(pk)
 	c.r128("R12.8")
+	c.r129(pk)
 }
 
 // R12.1
@@ -767,4 +768,106 @@ func (c *Ctx) r127(pk *packages.Package) {
 		return true
 	})
 	c.R.Check(len(bad) == 0 && n > 0, rule, "minify.responseWriter.Write/minifier choice independent of the chunk", c.pos(fd), fmt.Sprintf("%d site(s), none derived from the chunk", n), "the media type used to choose the minifier is derived from the first chunk of the body ("+strings.Join(bad, "; ")+"): the same body written in other pieces gets another minifier")
+}
+
+// R12.9: the goroutine releases Close only when it has nothing left to do.
+func (c *Ctx) r129(pk *packages.Package) {
+	const rule = "R12.9"
+	c.R.Rule(rule, "Close of the writer returned by M.Writer (and of the middleware's writer) waits on a sync.WaitGroup that the minifying goroutine releases; what Close promises — the output delivered to the destination, the minifier's error stored — has to be complete at that moment. In every `go func(){…}()` of the root package that calls (*sync.WaitGroup).Done, the call is deferred, and no defer statement registered in front of it touches what the goroutine delivers to — a variable that occurs in a writer argument of its calls — or stores the error (deferred calls run last in, first out: a buffered writer's Flush registered earlier would run after Close has been let go)")
+	info := pk.TypesInfo
+	n := 0
+	for _, fd := range load.FuncDecls(pk) {
+		if fd.Body == nil {
+			continue
+		}
+		k := 0
+		ast.Inspect(fd.Body, func(x ast.Node) bool {
+			gs, ok := x.(*ast.GoStmt)
+			if !ok {
+				return true
+			}
+			lit, ok := gs.Call.Fun.(*ast.FuncLit)
+			if !ok {
+				return true
+			}
+			isDone := func(call *ast.CallExpr) bool {
+				return calleeName(info, call) == "(*sync.WaitGroup).Done" || calleeName(info, call) == "sync.(WaitGroup).Done" || strings.HasSuffix(calleeName(info, call), "WaitGroup).Done")
+			}
+			hasDone := false
+			ast.Inspect(lit.Body, func(z ast.Node) bool {
+				if ce, ok := z.(*ast.CallExpr); ok && isDone(ce) {
+					hasDone = true
+				}
+				return true
+			})
+			if !hasDone {
+				return true
+			}
+			n++
+			k++
+			// what the goroutine delivers to: the writer arguments of its calls, and what they are built from
+			dest := map[types.Object]bool{}
+			ioWriter, _ := c.P.All["io"].Types.Scope().Lookup("Writer").Type().Underlying().(*types.Interface)
+			ast.Inspect(lit.Body, func(z ast.Node) bool {
+				ce, ok := z.(*ast.CallExpr)
+				if !ok {
+					return true
+				}
+				for _, a := range ce.Args {
+					t := info.TypeOf(a)
+					if t == nil || ioWriter == nil || !types.Implements(t, ioWriter) {
+						continue
+					}
+					ast.Inspect(a, func(q ast.Node) bool {
+						if id, ok := q.(*ast.Ident); ok {
+							if v, ok := info.Uses[id].(*types.Var); ok {
+								dest[v] = true
+							}
+						}
+						return true
+					})
+				}
+				return true
+			})
+			touches := func(n ast.Node) bool {
+				hit := false
+				ast.Inspect(n, func(q ast.Node) bool {
+					switch v := q.(type) {
+					case *ast.Ident:
+						if o, ok := info.Uses[v].(*types.Var); ok && dest[o] {
+							hit = true
+						}
+					case *ast.AssignStmt:
+						for _, l := range v.Lhs {
+							if sel, ok := l.(*ast.SelectorExpr); ok && sel.Sel.Name == "err" {
+								hit = true
+							}
+						}
+					}
+					return !hit
+				})
+				return hit
+			}
+			var before []string
+			deferred := false
+			for _, st := range lit.Body.List {
+				ds, ok := st.(*ast.DeferStmt)
+				if !ok {
+					continue
+				}
+				if isDone(ds.Call) {
+					deferred = true
+					break
+				}
+				if touches(ds.Call) {
+					before = append(before, c.pos(ds)+" "+str(ds.Call))
+				}
+			}
+			key := fmt.Sprintf("minify.%s/goroutine#%d releases the wait group last", load.FuncName(fd), k)
+			c.R.Check(deferred && len(before) == 0, rule, key, c.pos(gs), "Done is deferred and nothing registered in front of it touches the destination or the error",
+				fmt.Sprintf("the wait group is released before the goroutine is finished (deferred in front of it: %s; Done deferred at the top level of the goroutine: %v): Close returns while output is still being written — with a buffered writer whose Flush is deferred first, `w.Close()` returns with nothing delivered", strings.Join(before, ", "), deferred))
+			return true
+		})
+	}
+	c.R.Floor(rule, "goroutines that release a wait group", n, 2)
 }
